@@ -66,7 +66,7 @@ class Scenario:
     """
 
     def __init__(self, name, build, events=None, scalars=None, pre=None, axis="ev", strict=(), positive=(), integer=(), kinds=None, nonnegative=(),
-                 extras_sym=None, extras_native=None, extra_hyps=None):
+                 extras_sym=None, extras_native=None, extra_hyps=None, special_native=None):
         self.name = name
         self.build = build
         self.events = events or {}
@@ -82,6 +82,7 @@ class Scenario:
         self.extras_sym = extras_sym  # () -> dict of helper objects for the symbolic run
         self.extras_native = extras_native  # (rng) -> dict of helper objects for native runs
         self.extra_hyps = extra_hyps  # (v) -> list of sympy hypotheses
+        self.special_native = special_native  # (rng) -> list of native input dicts tried first by every bounded search (boundary designs)
 
     def _symbol(self, name):
         kw = {"real": True}
@@ -391,6 +392,11 @@ class FunctionCheck:
 
     def search(self, n=None):
         rng = np.random.default_rng(self.ck.seed + 1)
+        if self.sc.special_native is not None:
+            for v in self.sc.special_native(rng):
+                d = self.native_compare(v)
+                if d is not None:
+                    return {"violated": True, "input": jsonable_vals(v), "observed": d, "function": self.qn}
         for it in range(n or self.n_native):
             v = self.valid_native(rng, 1 + it % 7)
             d = self.native_compare(v)
@@ -719,7 +725,16 @@ class FunctionCheck:
 
     def frame_replay(self, self_state=False):
         rng = np.random.default_rng(self.ck.seed)
-        v = self.valid_native(rng, 4)
+        designs = list(self.sc.special_native(rng)) if self.sc.special_native is not None else []
+        designs.append(self.valid_native(rng, 4))
+        last = None
+        for v in designs:
+            last = self._frame_replay_one(v, self_state)
+            if last.get("violated"):
+                return last
+        return last
+
+    def _frame_replay_one(self, v, self_state):
         fn, args, kwargs = self.sc.build(v)
         named = []
 
